@@ -477,6 +477,25 @@ func (g *Gen) Pipeline() Doc {
 		delete(unknownMarks, k)
 	}
 	sin, sout, kinds := g.steps("", 0, 1)
+	// presentation: the first keys of every mapping step come through an inline
+	// `<<` merge (`- <<: {k1: v1}` then the other keys) or through a merge of an
+	// anchored mapping defined in the previous step's position; the denoted data
+	// and key order are unchanged ("merged keys stand where the merge key stood").
+	if mg := g.pick("present.merge", 3); mg != 0 {
+		for _, it := range sin.Items {
+			if it.K != KMap || len(it.Keys) < 2 {
+				continue
+			}
+			n := 1
+			if mg == 2 {
+				n = len(it.Keys) - 1
+			}
+			src := &N{K: KMap, Merge: true, Keys: append([]string{}, it.Keys[:n]...), Vals: append([]*N{}, it.Vals[:n]...)}
+			it.Keys = append([]string{"<<"}, it.Keys[n:]...)
+			it.Vals = append([]*N{src}, it.Vals[n:]...)
+		}
+		g.Trace = append(g.Trace, []string{"", "merge=first-key", "merge=all-but-last"}[mg])
+	}
 	// presentation: every step followed by an alias of itself, with distinct
 	// anchor names or with one name that is redefined for every step
 	// (`- &a s0`, `- *a`, `- &a s1`, `- *a`); the denoted step list is s0 s0 s1 s1.
